@@ -518,14 +518,43 @@ impl<'a> ValVisitor for IntoVis<'a> {
     }
 }
 
+/// keys of the process-wide shared `HighwayBuildHasher`s (slot 1 is `HighwayBuildHasher::default()`)
+pub const SHARED_KEYS: [[u64; 4]; 4] = [
+    [1, 2, 3, 4],
+    [0, 0, 0, 0],
+    [0x0706050403020100, 0x0F0E0D0C0B0A0908, 0x1716151413121110, 0x1F1E1D1C1B1A1918],
+    [0xdbe6d5d5fe4cce2f ^ 0xFFFF_FFF0, 0xFFFF_FFFF_FFFF_FFFF, 0x8000_0000_0000_0000, 0x0000_0000_FFFF_FFFF],
+];
+
+pub fn make_shared() -> [HighwayBuildHasher; 4] {
+    [
+        HighwayBuildHasher::new(Key(SHARED_KEYS[0])),
+        HighwayBuildHasher::default(),
+        HighwayBuildHasher::new(Key(SHARED_KEYS[2])),
+        HighwayBuildHasher::new(Key(SHARED_KEYS[3])),
+    ]
+}
+
 pub struct Machine {
     pub hs: [Option<AnyHasher>; NH],
     pub cpu: Cpu,
+    /// builders shared by every `Machine` of the process (all threads of the native runner)
+    pub shared: Option<&'static [HighwayBuildHasher; 4]>,
+}
+
+struct SharedOneVis {
+    builder: &'static HighwayBuildHasher,
+    out: u64,
+}
+impl ValVisitor for SharedOneVis {
+    fn visit<T: core::hash::Hash + ?Sized>(&mut self, v: &T) {
+        self.out = self.builder.hash_one(v);
+    }
 }
 
 impl Machine {
     pub fn new(cpu: Cpu) -> Self {
-        Machine { hs: core::array::from_fn(|_| None), cpu }
+        Machine { hs: core::array::from_fn(|_| None), cpu, shared: None }
     }
 
     fn fin(h: AnyHasher, w: &[u8], out: &mut Out) -> bool {
@@ -803,6 +832,53 @@ impl Machine {
                     bad!()
                 }
                 out.u64_hex(v.out);
+            }
+            (b"shone", 3) | (b"shbh", 3) | (b"shstress", 4) => {
+                // operations on builders SHARED by all threads of the runner
+                let Some(sh) = self.shared else {
+                    out.s("unsupported");
+                    return;
+                };
+                if op == b"shbh" {
+                    let h = handle!(1);
+                    let Some(slot) = parse_dec(toks[2]) else { bad!() };
+                    if slot >= 4 {
+                        bad!()
+                    }
+                    self.hs[h] = Some(AnyHasher::Auto(sh[slot].build_hasher()));
+                    out.s("ok");
+                    return;
+                }
+                let Some(slot) = parse_dec(toks[1]) else { bad!() };
+                if slot >= 4 {
+                    bad!()
+                }
+                if op == b"shone" {
+                    let mut v = SharedOneVis { builder: &sh[slot], out: 0 };
+                    if !with_val(toks[2], scratch, &mut v) {
+                        bad!()
+                    }
+                    out.u64_hex(v.out);
+                } else {
+                    // n x hash_one of pseudo-random short values, folded: sequential and concurrent runs must agree
+                    let (Some(n), Some(seed)) = (parse_dec(toks[2]), parse_u64_hex(toks[3])) else { bad!() };
+                    let mut acc: u64 = 0;
+                    let mut x = seed;
+                    for i in 0..n {
+                        x = x.wrapping_add(0x9E37_79B9_7F4A_7C15);
+                        let mut z = x;
+                        z = (z ^ (z >> 30)).wrapping_mul(0xBF58_476D_1CE4_E5B9);
+                        z = (z ^ (z >> 27)).wrapping_mul(0x94D0_49BB_1331_11EB);
+                        z ^= z >> 31;
+                        let r = match i % 3 {
+                            0 => sh[slot].hash_one(z),
+                            1 => sh[slot].hash_one((z as u32, (z >> 32) as u16)),
+                            _ => sh[slot].hash_one(&z.to_le_bytes()[..(z % 9) as usize]),
+                        };
+                        acc = acc.rotate_left(7) ^ r;
+                    }
+                    out.u64_hex(acc);
+                }
             }
             (b"hashrec", 2) => {
                 // the `write` calls core's `Hash` impl of the value makes (independent of the crate)
